@@ -231,7 +231,9 @@ pub fn run(args: &Args) {
     let mut sigs: BTreeSet<u64> = BTreeSet::new();
     let t0 = std::time::Instant::now();
     let mut samples = Vec::new();
-    for d in 1..=max_dim {
+    // every dimension up to max_dim, plus a few large ones (several words, thousands of components)
+    let extra_dims: Vec<usize> = if max_dim >= 300 { vec![511, 512, 513, 1000, 1030, 2048, 4097, 6000] } else { vec![] };
+    for d in (1..=max_dim).chain(extra_dims.into_iter()) {
         if d as u64 % nshards != shard {
             continue;
         }
@@ -254,7 +256,8 @@ pub fn run(args: &Args) {
                 }
                 c.inc("c12_dims_exhaustive");
             }
-            for k in 0..random_per_dim {
+            let random_here = if d > 400 { random_per_dim.min(40) } else { random_per_dim };
+            for k in 0..random_here {
                 let p: Vec<bool> = match k {
                     0 => vec![true; d],
                     1 => vec![false; d],
